@@ -14,11 +14,12 @@ from .tables import op_table
 
 
 class World:
-    def __init__(self, model: Model, real_exprs: bool = False):
+    def __init__(self, model: Model, real_exprs: bool = False, real_blocks: bool = False):
         """real_exprs: expressions constructed inside the analysed code (Int(0), Div(a, b), TernaryExpr(...)) are
         built from the repository's own classes and factories and lowered by their own __teal__"""
         self.model = model
         self.objs = None
+        self.real_blocks = real_blocks and real_exprs  # blocks are instances of the repository's block classes
         if real_exprs:
             from .objworld import ObjWorld
 
@@ -52,7 +53,11 @@ class World:
         c = Sym(f"expr:{name}", attrs={"$isa": set(isa), "stack_frames": None, "trace": None})
 
         def teal(options, c=c, name=name):
-            b = self.simple_block([OpVal("$push", [name, ttype])] if ttype != "none" else [OpVal("$effect", [name])])
+            ops = [OpVal("$push", [name, ttype])] if ttype != "none" else [OpVal("$effect", [name])]
+            if self.real_blocks:
+                b = self.objs.construct("TealSimpleBlock", [ops], {})
+            else:
+                b = self.simple_block(ops)
             return (b, b)
 
         c.methods.update({"__teal__": teal, "type_of": lambda: self.TT.attrs[ttype], "has_return": lambda: has_return})
@@ -71,6 +76,9 @@ class World:
                 return self.OpS
             if t == "TealType":
                 return self.TT
+            if self.real_blocks and t in ("TealSimpleBlock", "TealConditionalBlock", "TealBlock"):
+                self.objs.me = me
+                return self.objs.class_sym(t)
             if t == "TealSimpleBlock":
                 return self.simple_block
             if t == "TealConditionalBlock":
